@@ -279,6 +279,19 @@ def stream_scripts(blocks, rnd):
                 # a non-consensus execution of the very transaction that is about to be delivered (a gas simulation)
                 na.append({"op": rnd.choice(["simulate", "checktx"]), "tx": tx})
                 nb.append({"op": "simulate", "tx": tx})
+            if tx["kind"] == "PayAddr" and rnd.random() < 0.7:
+                # a ROLLED-BACK registration by a rival: one transaction of two messages - the rival registers itself as the payment
+                # address of the very DID that is about to be registered, then stores in that DID's name for a price beyond any
+                # balance (the store reads the uncommitted registration, then fails): the whole transaction is undone. In a block
+                # of its own, followed by a restart on the restarting replica; the real registration comes next.
+                rival = "a07" if tx["creator"] != "a07" else "a06"
+                if cur:
+                    close()
+                cur = [{"kind": "PayAddr", "creator": rival, "acc": rival, "did": tx["did"],
+                        "also": [{"kind": "Store", "creator": rival, "provider": "a01", "gw": "a01", "owner": tx["did"], "signer": tx["did"],
+                                  "paydid": tx["did"], "data": "D12", "commit": "D12", "cseg": ["D12"], "alias": "alD12", "op": 1,
+                                  "dur": 20000000000000, "replica": 1, "timeout": 1800, "size": 1000}]}]
+                close(failed=True)
             if tx["kind"] == "Store" and tx.get("op") == 1 and rnd.random() < 0.5:
                 # a store that gets as far as choosing providers and then fails (its price is beyond any balance): in the stream,
                 # in a block of its own, followed by a restart on the restarting replica
